@@ -8,7 +8,7 @@ root = sys.argv[sys.argv.index('--root') + 1] if '--root' in sys.argv else '/rep
 prog = ir.extract(root)
 tab = {}
 for f in prog.all_functions(include_patterns=True):
-    if f.file.startswith(prog.root) and f.params and not f.is_lambda:
+    if f.file.startswith(prog.root) and not f.is_lambda:
         tab[f.sig] = [p['name'] for p in f.params]
 out = os.path.join(os.path.dirname(os.path.dirname(os.path.abspath(__file__))), 'lpv', 'param_names.json')
 json.dump(tab, open(out, 'w'), indent=0, sort_keys=True)
